@@ -21,10 +21,16 @@ Inductive rid_rule :=
 | RidLast        (* RewardsID.Set(ctx, data.Rewards[len-1].Id)       — pinned tree *)
 | RidLastPlus1   (* RewardsID.Set(ctx, data.Rewards[len-1].Id + 1) *)
 | RidUnknown.
+(** what MsgUpdateFeeShare stores as the new withdrawer of a fee share *)
+Inductive dg_rule :=
+| DgUpdKeep               (* the (re-encoded) new withdrawer, whatever it is — the current tree *)
+| DgUpdRemoveIfDeployer   (* "" when the new withdrawer is the deployer ("the withdraw address is removed") *)
+| DgUpdUnknown.
 Record cfg := {
   c_rid : rid_rule;
   c_tf_keeps_bank_md : bool;  (* unsafeGenesisInsertDenom keeps bank metadata that already exists *)
-  c_pair_json_id : bool       (* asset.Pair (Un)MarshalJSON copy the string unchanged *)
+  c_pair_json_id : bool;      (* asset.Pair (Un)MarshalJSON copy the string unchanged *)
+  c_dg_upd : dg_rule          (* the withdrawer strings the x/devgas message handlers can store *)
 }.
 
 (** pure functions of the Go code over opaque payloads *)
@@ -35,8 +41,14 @@ Record funs := {
   f_tfparse : key -> key * id;       (* DenomStr.MustToStruct: denom -> (creator, subdenom) *)
   f_tfdefmd : key -> id;             (* TFDenom.DefaultBankMetadata *)
   f_dgsan : id -> id;                (* devgas ModuleParams.Sanitize *)
-  f_pairjson : key -> key            (* asset.Pair.UnmarshalJSON (MarshalJSON p): what a pair string becomes when the
+  f_pairjson : key -> key;           (* asset.Pair.UnmarshalJSON (MarshalJSON p): what a pair string becomes when the
                                         genesis JSON is decoded — the only custom JSON codec among the string keys *)
+  f_addr_ok : key -> bool;           (* sdk.AccAddressFromBech32(s) succeeds (it does not for "") *)
+  f_canon : key -> key;              (* AccAddressFromBech32(s).String(): the canonical (lower-case) encoding *)
+  f_dgp_ok : id -> bool;             (* devgas ModuleParams.Validate() == nil *)
+  f_dgp_enabled : id -> bool;        (* devgas ModuleParams.EnableFeeShare *)
+  f_gov : key;                       (* the gov module account (string key) *)
+  f_empty : key                      (* the empty string *)
 }.
 
 (* ------------------------------------------------------------------ sudo *)
@@ -202,13 +214,143 @@ Record devgas_st := {
 Record devgas_gen := { dgg_params : id; dgg_shares : list feeshare }.
 Definition export_devgas (s : devgas_st) : devgas_gen :=
   {| dgg_params := dg_params s; dgg_shares := map snd (dg_shares s) |}.
+(** FeeShare.Validate: the three addresses parse; an empty withdrawer is rejected ("withdrawer address cannot be
+    empty") — covered by [f_addr_ok] being false on the empty string *)
+Definition fs_valid (F : funs) (f : feeshare) : bool :=
+  f_addr_ok F (fs_contract f) && f_addr_ok F (fs_deployer f) && f_addr_ok F (fs_withdrawer f).
+(** InitGenesis: GenesisState.Validate (duplicate contract, every FeeShare.Validate, Params.Validate) — any failure
+    panics, i.e. the chain cannot start from this genesis —, then Params.Sanitize and SetFeeShare per entry *)
 Definition init_devgas (F : funs) (g : devgas_gen) : option devgas_st :=
   if negb (nodupb (map fs_contract (dgg_shares g))) then None     (* Validate: contract duplicated *)
+  else if negb (forallb (fs_valid F) (dgg_shares g)) then None    (* Validate: FeeShare.Validate *)
+  else if negb (f_dgp_ok F (dgg_params g)) then None              (* Validate: Params.Validate *)
   else
     let shares := of_list (map (fun f => (fs_contract f, f)) (dgg_shares g)) in
     Some {| dg_params := f_dgsan F (dgg_params g); dg_shares := shares;
             dg_idx_dep := idx_of (fun _ v => fs_deployer v) shares;
             dg_idx_wd := idx_of (fun _ v => fs_withdrawer v) shares |}.
+
+(** ---- the x/devgas message handlers (x/devgas/v1/keeper/msg_server.go): the only writers of the registry besides
+    InitGenesis.  A history is a list of [dg_op]; the environment part of the world is the table of wasm contracts
+    (ContractInfo: admin, creator).  A handler returns [None] when it rejects (or panics: nil ContractInfo): the
+    message fails and the state is unchanged.  Strings in messages are arbitrary (keys of raw strings); what is
+    STORED is the re-encoding [f_canon] of the parsed address. *)
+Record winfo := { wi_admin : option key; wi_creator : key }.
+Inductive dg_op :=
+| DWasm (c : key) (i : winfo)            (* contract [c] instantiated / its admin changed (environment) *)
+| DRegister (c d w : key)                (* MsgRegisterFeeShare{ContractAddress, DeployerAddress, WithdrawerAddress} *)
+| DUpdate (c d w : key)                  (* MsgUpdateFeeShare *)
+| DCancel (c d : key)                    (* MsgCancelFeeShare *)
+| DParams (auth : bool) (p : id).        (* MsgUpdateParams; [auth]: sent by the module authority *)
+
+Definition dg_with_shares (s : devgas_st) (shares : smap feeshare) : devgas_st :=
+  {| dg_params := dg_params s; dg_shares := shares;
+     dg_idx_dep := idx_of (fun _ v => fs_deployer v) shares;
+     dg_idx_wd := idx_of (fun _ v => fs_withdrawer v) shares |}.
+(** SetFeeShare = IndexedMap.Insert (re-indexes), DevGasStore.Delete *)
+Definition dg_put (f : feeshare) (s : devgas_st) : devgas_st := dg_with_shares s (ins (fs_contract f) f (dg_shares s)).
+Definition dg_delete (c : key) (s : devgas_st) : devgas_st := dg_with_shares s (del c (dg_shares s)).
+
+(** isContractCreatedFromFactory(info, msgSender) *)
+Definition from_factory (F : funs) (W : smap winfo) (i : winfo) (sender : key) : bool :=
+  match wi_admin i with
+  | Some a => if a =? f_gov F then true else if a =? sender then false else mem a W
+  | None => mem (wi_creator i) W
+  end.
+(** GetContractAdminOrCreatorAddress(contract, deployer) succeeds: string comparison with ContractInfo *)
+Definition admin_or_creator (F : funs) (W : smap winfo) (c d : key) : bool :=
+  f_addr_ok F d &&
+  match get c W with
+  | None => false
+  | Some i => match wi_admin i with None => wi_creator i =? d | Some a => a =? d end
+  end.
+
+Definition dg_register (F : funs) (W : smap winfo) (s : devgas_st) (c d w : key) : option devgas_st :=
+  if negb (f_dgp_enabled F (dg_params s)) then None
+  else if negb (f_addr_ok F c) then None
+  else
+    let c' := f_canon F c in
+    if mem c' (dg_shares s) then None                       (* already registered *)
+    else if negb (f_addr_ok F w) then None
+    else if negb (f_addr_ok F d) then None
+    else
+      match get c' W with
+      | None => None                                        (* nil ContractInfo: the handler panics *)
+      | Some i =>
+          if from_factory F W i (f_canon F d) then
+            if w =? c then Some (dg_put {| fs_contract := c'; fs_deployer := c'; fs_withdrawer := f_canon F w |} s)
+            else None
+          else if admin_or_creator F W c' d then
+            Some (dg_put {| fs_contract := c'; fs_deployer := f_canon F d; fs_withdrawer := f_canon F w |} s)
+          else None
+      end.
+
+Definition dg_update (r : dg_rule) (F : funs) (W : smap winfo) (s : devgas_st) (c d w : key) : option devgas_st :=
+  if negb (f_dgp_enabled F (dg_params s)) then None
+  else if negb (f_addr_ok F c) then None
+  else
+    let c' := f_canon F c in
+    match get c' (dg_shares s) with
+    | None => None                                          (* not registered *)
+    | Some fs =>
+        if w =? fs_withdrawer fs then None                  (* "already registered" with this withdrawer *)
+        else if negb (admin_or_creator F W c' d) then None
+        else if negb (f_addr_ok F w) then None
+        else
+          let nw := f_canon F w in
+          match r with
+          | DgUpdKeep =>
+              Some (dg_put {| fs_contract := fs_contract fs; fs_deployer := fs_deployer fs; fs_withdrawer := nw |} s)
+          | DgUpdRemoveIfDeployer =>
+              Some (dg_put {| fs_contract := fs_contract fs; fs_deployer := fs_deployer fs;
+                              fs_withdrawer := if nw =? fs_deployer fs then f_empty F else nw |} s)
+          | DgUpdUnknown => None
+          end
+    end.
+
+Definition dg_cancel (F : funs) (W : smap winfo) (s : devgas_st) (c d : key) : option devgas_st :=
+  if negb (f_dgp_enabled F (dg_params s)) then None
+  else if negb (f_addr_ok F c) then None
+  else
+    let c' := f_canon F c in
+    match get c' (dg_shares s) with
+    | None => None
+    | Some fs => if admin_or_creator F W c' d then Some (dg_delete (fs_contract fs) s) else None
+    end.
+
+Definition dg_set_params (F : funs) (s : devgas_st) (auth : bool) (p : id) : option devgas_st :=
+  if auth && f_dgp_ok F p then
+    Some {| dg_params := p; dg_shares := dg_shares s; dg_idx_dep := dg_idx_dep s; dg_idx_wd := dg_idx_wd s |}
+  else None.
+
+Definition dg_world := (smap winfo * devgas_st)%type.
+Definition dg_handle (r : dg_rule) (F : funs) (ws : dg_world) (op : dg_op) : option devgas_st :=
+  match op with
+  | DWasm _ _ => Some (snd ws)
+  | DRegister c d w => dg_register F (fst ws) (snd ws) c d w
+  | DUpdate c d w => dg_update r F (fst ws) (snd ws) c d w
+  | DCancel c d => dg_cancel F (fst ws) (snd ws) c d
+  | DParams a p => dg_set_params F (snd ws) a p
+  end.
+(** one step: the new world and whether the message succeeded *)
+Definition dg_step (r : dg_rule) (F : funs) (ws : dg_world) (op : dg_op) : dg_world * bool :=
+  let W' := match op with DWasm c i => ins c i (fst ws) | _ => fst ws end in
+  match dg_handle r F ws op with
+  | Some s' => ((W', s'), true)
+  | None => ((W', snd ws), false)
+  end.
+Definition dg_run (r : dg_rule) (F : funs) (ops : list dg_op) (ws : dg_world) : dg_world :=
+  fold_left (fun acc op => fst (dg_step r F acc op)) ops ws.
+(** replay of an observed log: every success / failure must be predicted *)
+Fixpoint dg_replay (r : dg_rule) (F : funs) (hist : list (dg_op * bool)) (ws : dg_world) : option dg_world :=
+  match hist with
+  | [] => Some ws
+  | (op, ok) :: rest =>
+      let res := dg_step r F ws op in
+      if Bool.eqb ok (snd res) then dg_replay r F rest (fst res) else None
+  end.
+(** the registry of a chain started from a default-like genesis: params [p], no fee share *)
+Definition dg_genesis (p : id) : devgas_st := {| dg_params := p; dg_shares := []; dg_idx_dep := []; dg_idx_wd := [] |}.
 
 (* ------------------------------------------------------------------ evm *)
 Record funtoken := { ft_erc20 : key; ft_denom : key; ft_body : id }.
